@@ -54,6 +54,15 @@ What is translated (anything else raises Unsupported and the function is reporte
     is the continuation at the jump site - the `goto cleanup' idiom); a backward goto is rejected;
     glibc's assert() in both forms (statement expression / `(void)0').
 
+  * (session 4) an `if' without escape whose branch runs a loop (or calls a translated function with one) joins through the
+    option (`match (if c then .. Some t else .. Some t) with None => None | Some t => ..'); `&path' of a struct member handed
+    to a translated callee is the opaque input `<path>_ptr' while the callee's accesses are re-rooted at <path>; a local
+    `enum { K = 4 };' only defines constants; CURSORS: a byte-pointer local initialised from a pointer PARAMETER p
+    (`uint8_t *cd = (uint8_t *)p;' / `(uint8_t *)p + n') is represented by its byte offset, `*cd' is `p_bytes cd',
+    `cd++' and comparisons of two cursors over the same parameter are integer operations on the offsets (cursors over
+    different parameters must not be compared - not checked); an argument of a logged call that is outside the subset
+    keeps its path unchanged.
+
 Output conventions: all values are Z.  `u32 x' = x mod 2^32 etc. come from coq/C2CoqPrelude.v.
 """
 import json
@@ -143,6 +152,7 @@ class Fn:
         self.written = []         # names of paths stored to (in order of first store)
         self.locals = {}          # decl id -> Var
         self.has_loop = False
+        self.cursor = {}          # local id -> byte-array path of the pointer parameter it walks over
         self.pre = []
         self.loopn = 0
         self.loop_depth = 0
@@ -261,6 +271,13 @@ class Fn:
         if k == "UnaryOperator" and e["opcode"] == "*" and self.is_errno(e["inner"][0]):
             return ("errno", None, e["type"], None)
         if k == "UnaryOperator" and e["opcode"] == "*":
+            t0 = e["inner"][0]
+            while t0.get("kind") in ("ImplicitCastExpr", "ParenExpr"):
+                t0 = t0["inner"][0]
+            if t0.get("kind") == "DeclRefExpr" and t0["referencedDecl"]["id"] in self.cursor:
+                cid = t0["referencedDecl"]["id"]
+                return (self.cursor[cid], {"kind": "__raw", "text": self.locals[cid].name, "type": {"qualType": "unsigned long"}},
+                        e["type"], None)
             base = self.path_of(e["inner"][0])
             if base[1] is not None:
                 raise Unsupported("deref of an array element")
@@ -765,6 +782,34 @@ class Fn:
         i = self.expr(idx)
         return "let %s := upd %s %s %s in\n%s" % (name, name, i, wrap(ty, val), k())
 
+    BYTE_PTR = ("char *", "unsigned char *", "signed char *", "uint8_t *", "int8_t *")
+
+    def cursor_init(self, ty, e):
+        """`uint8_t *cd = (uint8_t *)p' / `(uint8_t *)p + n' for a pointer PARAMETER p -> (p_bytes, offset text), else None"""
+        if desugar(ty) not in self.BYTE_PTR and not desugar(ty).replace("const ", "") in self.BYTE_PTR:
+            return None
+        x = e
+        while x.get("kind") in ("ImplicitCastExpr", "CStyleCastExpr", "ParenExpr"):
+            x = x["inner"][0]
+        off = None
+        if x.get("kind") == "BinaryOperator" and x.get("opcode") == "+":
+            if desugar(x["type"]) not in self.BYTE_PTR:
+                return None          # the addition must already be in bytes
+            lhs, rhs = x["inner"]
+            if int_type(rhs["type"]) is None or desugar(rhs["type"]).endswith("*"):
+                return None
+            off = rhs
+            x = lhs
+            while x.get("kind") in ("ImplicitCastExpr", "CStyleCastExpr", "ParenExpr"):
+                x = x["inner"][0]
+        if x.get("kind") != "DeclRefExpr" or x["referencedDecl"]["id"] not in self.param_ids:
+            return None
+        if not desugar(x["type"]).endswith("*"):
+            return None
+        name = self.locals[x["referencedDecl"]["id"]].name + "_bytes"
+        self.add_input(Var(name, "arr"))
+        return (name, "0" if off is None else self.expr(off))
+
     def pointer_local_bind(self, did, rhs):
         """a pointer local assigned once: -> 'alias' (rhs is an access path), 'single' (some other value) or None"""
         if self.ptr_assigns.get(did, 0) != 1 or did in self.addr_taken or self.loop_depth:
@@ -806,6 +851,9 @@ class Fn:
                 if i == len(decls):
                     return k()
                 d = decls[i]
+                if d["kind"] == "EnumDecl":      # `enum { P_INVERSE = 4 };' inside a function: constants only
+                    self.tu.collect_enums(d)
+                    return go(i + 1)
                 if d["kind"] != "VarDecl":
                     raise Unsupported("declaration of %s" % d["kind"])
                 if int_type(d["type"]) is None:
@@ -824,6 +872,17 @@ class Fn:
                     v = Var(v.name + "_l", "Z")
                 init = [c for c in d.get("inner", []) if "kind" in c]
                 if init and desugar(d["type"]).endswith("*"):
+                    cur = self.cursor_init(d["type"], init[0])
+                    if cur is not None:
+                        # CURSOR: a byte pointer local that starts at (a byte offset from) a pointer parameter is
+                        # represented by its offset; `*cd' reads the parameter's byte path at that offset
+                        self.cursor[d["id"]] = cur[0]
+                        self.locals[d["id"]] = v
+                        note = "the local pointer %s walks over the bytes %s points to: it is represented by its byte offset, `*%s' is (%s %s)" \
+                               % (v.name, cur[0][:-6], v.name, cur[0], v.name)
+                        if note not in self.notes:
+                            self.notes.append(note)
+                        return "let %s := %s in\n%s" % (v.name, cur[1], go(i + 1))
                     if self.pointer_local_bind(d["id"], init[0]) == "alias":
                         self.locals[d["id"]] = v
                         return go(i + 1)
